@@ -31,8 +31,34 @@ def match_known(prop, key):
         if ent.get("status") != "known" or ent.get("property") != prop:
             continue
         if all(key.get(k) == v for k, v in ent["key"].items()):
+            if ent.get("sites") and key.get("site") and key["site"] not in ent["sites"] and _sites_still_defined(key.get("file"), ent["sites"]):
+                # same optimizer, exception type and module, but raised in ANOTHER function than the recorded finding while
+                # the recorded function(s) still exist: a different failure, not the known one
+                continue
             return ent
     return None
+
+
+_DEF_CACHE = {}
+
+
+def _sites_still_defined(file, sites):
+    """True when every recorded raise site is still a function defined in a repository module of that name (so an unknown
+    site cannot be a mere rename of a recorded one).  Comprehension / lambda frames never count as definitions."""
+    if not file:
+        return False
+    if file not in _DEF_CACHE:
+        names = set()
+        root = os.path.join(env.REPO, "pyvolutionary")
+        for dp, _dn, fn in os.walk(root):
+            if file in fn:
+                try:
+                    import re as _re
+                    names.update(_re.findall(r"^\s*def\s+([A-Za-z_][A-Za-z0-9_]*)\s*\(", open(os.path.join(dp, file)).read(), _re.M))
+                except OSError:
+                    pass
+        _DEF_CACHE[file] = names
+    return all(s_ in _DEF_CACHE[file] for s_ in sites)
 
 
 class Report:
